@@ -174,4 +174,4 @@ def termstats(s, aq, key2dn):
 
 
 def replay(run, rp):
-    raise NotImplementedError
+    c01.replay_world(run, rp, rp["sig"].get("check", "c09"))
